@@ -14,6 +14,7 @@ from ..spec import (flat_descriptors, scan_desc, exploit_desc, privesc_desc,
                     noop_desc, spec_from_scenario, NOOP, EXPLOIT, PRIVESC,
                     SRV_SCAN, OS_SCAN, SUB_SCAN, PROC_SCAN, SCAN_KINDS)
 from ..verdict import Acc
+from ..paramspace import decode_vector
 
 SIZES = {"quick": dict(n_synth=60, n_gen=24, steps=60, samples=300,
                        vec_cap=40000),
@@ -470,39 +471,6 @@ def desc_signature(d):
     return sig
 
 
-def decode_vector(sp, v):
-    """Own decoder of the documented parameterised mapping."""
-    kinds = [EXPLOIT, PRIVESC, SRV_SCAN, OS_SCAN, SUB_SCAN, PROC_SCAN]
-    kind = kinds[v[0]]
-    subnet = v[1] + 1
-    host = v[2] % sp.subnets[subnet]
-    tgt = (subnet, host)
-    flags = set()
-    if v[2] >= sp.subnets[subnet]:
-        flags.add("wraparound")
-    if kind in SCAN_KINDS:
-        return scan_desc(sp, kind, tgt), flags
-    os_ = None if v[3] == 0 else sp.os[v[3] - 1]
-    if os_ is None:
-        flags.add("os_agnostic_request")
-    if kind == EXPLOIT:
-        srv = sp.services[v[4]]
-        for n, e in sp.exploits.items():
-            if e["service"] == srv and e["os"] == os_:
-                if os_ is None:
-                    flags.add("os_agnostic_definition")
-                return exploit_desc(sp, n, tgt), flags
-    else:
-        proc = sp.processes[v[5]]
-        for n, e in sp.privescs.items():
-            if e["process"] == proc and e["os"] == os_:
-                if os_ is None:
-                    flags.add("os_agnostic_definition")
-                return privesc_desc(sp, n, tgt), flags
-    flags.add("undefined_combination")
-    return noop_desc(), flags
-
-
 def c11_case(acc, sp, kw, rng, tier):
     z = SIZES[tier]
     F = Subject(sp, flat_actions=True, **kw)
@@ -553,7 +521,14 @@ def c11_case(acc, sp, kw, rng, tier):
     # ---- mask in reachable states
     pol = Policy(F, rng, "attacker")
     F.reset()
-    for k in range(z["steps"]):
+    n_ep = 5
+    for k in range(z["steps"] * n_ep):
+        if k and k % z["steps"] == 0:
+            # a new episode on the same environment object, taking a
+            # different route (the policy picks at random among the
+            # progressing actions)
+            F.reset()
+            acc.count("mask_episodes")
         acc.evaluations += 1
         try:
             mask = F.env.get_action_mask()
